@@ -229,7 +229,11 @@ func (e *Encoder) buildResource(builder *rdfdescription.ResourceListBuilder, res
 
 					if obj.Datatype == rdfiri.LangString_Datatype {
 						if tag, ok := obj.Tag.(rdf.LanguageLiteralTag); ok {
-							statementObject.(map[string]any)["@language"] = tag.Language
+							// a value object must not combine @type with @language
+							statementObject = map[string]any{
+								"@value":    obj.LexicalForm,
+								"@language": tag.Language,
+							}
 						}
 					}
 				}
